@@ -28,7 +28,7 @@ INIT Init
 NEXT Next
 CHECK_DEADLOCK FALSE
 """ + "".join(f"INVARIANT {i}\n" for i in invariants) + ("INVARIANT Emit\n" if emit else "")
-    return core.run_tlc("SamplingMC", cfg, workers=workers, timeout=3400, heap="8g")
+    return core.run_tlc("SamplingMC", cfg, workers=workers, timeout=3400, heap="8g", coverage=True)
 
 
 def run_mc_collect(rep, name, cons, ncards, rounds, variants, invariants, emit, site):
@@ -39,6 +39,8 @@ def run_mc_collect(rep, name, cons, ncards, rounds, variants, invariants, emit, 
         rep.add_tlc(name, res, consts={"Cons": cons, "NCards": ncards, "MaxRounds": rounds, "Variants": variants})
         if res.error:
             raise core.MachineryError(res.error[:2000])
+        if not res.violated:
+            core.require_actions(res, ["Next", "Step", "Finish"], name)
         if res.violated:
             rep.violation(site, f"mc:{res.violated}", f"TLC: {res.violated} violated in SamplingMC ({name})",
                           {"counterexample": res.cex[:5000]})
@@ -68,7 +70,8 @@ def replay(tid, cons, styles_by_rank, rounds, rng, variant_override=None):
     def mk_cards(variant_votes):
         out = []
         for pos in range(n):
-            votes = {c: {"v": 0.5, "junk": rng.random() if variant_votes else 1} for c in styles[pos]}
+            # the CVR's value identifies the card (0.5 + (pos+1)/256); what the manual record shows is chosen below
+            votes = {c: {"v": 0.5 + (pos + 1) / 256, "junk": rng.random() if variant_votes else 1} for c in styles[pos]}
             if variant_votes and rng.random() < 0.5:
                 votes["unaudited"] = {"x": 1}
             out.append(CVR(id=f"1-1-{pos}" if not variant_votes else f"9-9-{pos}x", votes=votes,
@@ -93,14 +96,19 @@ def replay(tid, cons, styles_by_rank, rounds, rng, variant_override=None):
     recs = [{"tid": f"{tid}:0", "walk": tid, "act": "init", "cons": cons, "styles": styles, "order": perm,
              "nums_a": na, "nums_b": nb, "nums_again": nagain, "nums_fresh": nfresh}]
 
+    # a third of the audits are of contests as small as their cards (the last round can be a full hand count)
+    census = rng.random() < 0.34
+    avail = {c: sum(1 for st in styles if c in st) for c in cons}
+
     def mk_contests():
         d = {}
         for c in cons:
-            con = Contest.from_dict({"id": c, "name": c, "risk_limit": 0.5, "cards": 200, "choice_function": "PLURALITY",
+            ncards = max(1, avail[c]) if census else 200
+            con = Contest.from_dict({"id": c, "name": c, "risk_limit": 0.5, "cards": ncards, "choice_function": "PLURALITY",
                                      "n_winners": 1, "candidates": ["A", "B"], "winner": ["A"],
                                      "audit_type": Audit.AUDIT_TYPE.CARD_COMPARISON, "use_style": True,
                                      "sample_size": 0})
-            tst = NonnegMean(**test_cfgs[c], u=4 / 3, N=200, t=0.5)
+            tst = NonnegMean(**test_cfgs[c], u=4 / 3, N=ncards, t=0.5)
             asn = Assertion(contest=con, winner="A", loser="B",
                             assorter=Assorter(contest=con, assort=lambda cv, cid=c: cv.votes[cid]["v"], upper_bound=1),
                             margin=0.5, test=tst, p_value=1, p_history=[], proved=False)
@@ -118,14 +126,23 @@ def replay(tid, cons, styles_by_rank, rounds, rng, variant_override=None):
     contests_alt = mk_contests()
     manifest = pd.DataFrame({"Tray #": ["1"], "Tabulator Number": ["1"], "Batch Number": ["1"], "Total Ballots": [n],
                              "VBMCart.Cart number": ["1"]})
-    low = {pos for pos in range(n) if rng.random() < 0.3}      # cards whose manual record is a large overstatement
+    # what the manual record of each card shows: agrees (value 1/2), a large overstatement (1/4), lacks the contest,
+    # or the card could not be found (phantom record) - the last two score 0
+    kind_of = {pos: rng.choice(["ok", "ok", "ok", "low", "missing", "unfound"]) for pos in range(n)}
 
-    def mvr_val(pos):      # identifies the card; in [1/2, 1] normally, in [-1/2, 0] for an overstated card
-        return (pos + 1) / 64 + (-0.5 if pos in low else 0.5)
+    def mk_mvr(cv):
+        pos = int(cv.id.split("-")[2])
+        k = kind_of[pos]
+        if k == "unfound":
+            return CVR(id=cv.id, votes={}, phantom=True)
+        if k == "missing":
+            return CVR(id=cv.id, votes={"other": {"z": 1}})
+        return CVR(id=cv.id, votes={c: {"v": (0.5 if k == "ok" else 0.25)} for c in cv.votes})
 
-    def decode(b):         # overstatement assorter value (1 - (1/2 - v))/(3/2) back to the list position
-        v = b * 1.5 - 0.5
-        return int(round((v + 0.5 if v < 0.25 else v - 0.5) * 64)) - 1
+    def decode(b):         # overstatement assorter value (1 - (cvr - mvr))/(3/2): cvr - mvr = (pos+1)/256 + {0, 1/4, 1/2}
+        diff = 1 - b * 1.5
+        off = 0.5 if diff > 0.5 else (0.25 if diff > 0.25 else 0.0)
+        return int(round((diff - off) * 256)) - 1
     prev = None
     prev_alt = None
     for step, rd in enumerate(rounds, start=1):
@@ -148,10 +165,7 @@ def replay(tid, cons, styles_by_rank, rounds, rng, variant_override=None):
                 idx_alt = [int(v) for v in idx_alt]
                 prev, prev_alt = idx, idx_alt
                 cards, sample_order, cvr_sample, mvr_ph = Dominion.sample_from_cvrs(cvrs, manifest, np.array(idx, dtype=int))
-                mvr_sample = []
-                for cv in cvr_sample:
-                    pos = int(cv.id.split("-")[2])
-                    mvr_sample.append(CVR(id=cv.id, votes={c: {"v": mvr_val(pos)} for c in cv.votes}))
+                mvr_sample = [mk_mvr(cv) for cv in cvr_sample]
                 rng.shuffle(mvr_sample)
                 CVR.prep_comparison_sample(mvr_sample, cvr_sample, sample_order)
                 data = {}
